@@ -93,7 +93,8 @@ TEXTS = {1: TEXT_A, 2: TEXT_B, 3: TEXT_C}
 
 def alphabet(mods, t: str) -> List[Tuple[str, str]]:
     """(name, kind) of the calls the histories are made of: rules that fire on one of the texts, format_code, pattern calls."""
-    out = [("format_code", "entry"), ("format_code_safe", "entry"), ("pattern_sub", "entry"), ("pattern_findall", "entry"), ("flood", "flood")]
+    out = [("format_code", "entry"), ("format_code_safe", "entry"), ("format_code_len60", "entry"), ("pattern_sub", "entry"),
+           ("pattern_findall", "entry"), ("flood", "flood")]
     for m, f in pipeline.all_rules(mods):
         fn = getattr(mods[m], f)
         fires = False
@@ -114,6 +115,12 @@ def call(mods, name: str, text: str):
         return main.format_code(text)
     if name == "format_code_safe":
         return main.format_code(text, safe=True, keep_imports=True)
+    if name == "format_code_len60":
+        return main.format_code(text, max_line_length=60)
+    if name == "format_code_len72_preserve":
+        return main.format_code(text, max_line_length=72, preserve=frozenset({"main", "run", "foo", "f", "x"}))
+    if name == "fix_line_lengths_60":
+        return mods["fixes"].fix_line_lengths(text, max_line_length=60)
     if name == "pattern_sub":
         return pm.sub("{{x}} * 2", "double({{x}})", text)
     if name == "pattern_findall":
@@ -159,12 +166,15 @@ class ParseWatch:
 
     def unfaithful(self):
         bad = []
+        fresh_dumps = self.__dict__.setdefault("_fresh_dumps", {})
         for src, tree in self.handed.values():
-            try:
-                fresh = ast.dump(ast.parse(src), include_attributes=True)
-            except SyntaxError:
-                continue
-            if ast.dump(tree, include_attributes=True) != fresh:
+            if src not in fresh_dumps:
+                try:
+                    fresh_dumps[src] = ast.dump(ast.parse(src), include_attributes=True)
+                except SyntaxError:
+                    fresh_dumps[src] = None
+            fresh = fresh_dumps[src]
+            if fresh is not None and ast.dump(tree, include_attributes=True) != fresh:
                 bad.append(src)
         return bad
 
@@ -224,6 +234,93 @@ def _replay(state, item):
         watch.uninstall()
     final_call = next(((names[h[0] - 1], h[1]) for h in reversed(hist) if h[0] != "fs"), None)
     return {"last": last, "final_call": final_call, "fs": fs_at_last, "unfaithful": bad_after}
+
+
+# ---------------------------------------------------------------------------------------------
+# Histories of the model instantiated over a LARGE text alphabet: for one text x the history
+#   fc_len72(x) fc(x) fc_safe(x) fc(x) fix_line_lengths_60(x)  r1(x) r1(x) r2(x) r2(x) ...  fc(x)
+# (every rule r, twice) runs in one process; every call is compared with the same call in a pristine process.
+ENTRY_CALLS = ["format_code_len72_preserve", "format_code", "format_code_safe", "format_code", "fix_line_lengths_60"]
+
+
+def corpus_texts(t: str, rng: random.Random) -> List[Tuple[str, str]]:
+    """Texts that make every rule fire: the first examples of every example script of the repository."""
+    import corpus
+    per_file: Dict[str, List[Tuple[str, str]]] = {}
+    for origin, text in corpus.repo_snippets():
+        per_file.setdefault(origin.split(":")[0], []).append((origin, text))
+    out = []
+    for f, items in sorted(per_file.items()):
+        out += items[: (3 if t == "quick" else 12)]
+    return out
+
+
+def _fresh_text_call(state, item):
+    mods, tmp = state
+    name, text = item
+    try:
+        return ("ok", call(mods, name, text))
+    except Exception as exc:  # noqa: BLE001
+        return ("raised", f"{type(exc).__name__}: {exc}")
+
+
+def _text_history(state, item):
+    mods, tmp = state
+    text, calls = item
+    watch = ParseWatch(mods)
+    watch.install()
+    out = []
+    bad = None
+    try:
+        for step, name in enumerate(calls, start=1):
+            try:
+                out.append(("ok", call(mods, name, text)))
+            except Exception as exc:  # noqa: BLE001
+                out.append(("raised", f"{type(exc).__name__}: {exc}"))
+            if bad is None:
+                uf = watch.unfaithful()
+                if uf:
+                    bad = (step, name, uf[0][:200])
+    finally:
+        watch.uninstall()
+    return {"results": out, "unfaithful": bad}
+
+
+def text_histories(rep: Report, mods, t: str, rng: random.Random) -> Tuple[int, int]:
+    texts = corpus_texts(t, rng)
+    rules = [f"{m}.{f}" for m, f in pipeline.all_rules(mods)]
+    # which rules fire where (decides which rule calls are worth repeating); computed in pristine forks
+    keys = [(r, x) for _, x in texts for r in rules] + [(c, x) for _, x in texts for c in sorted(set(ENTRY_CALLS))]
+    fresh_raw = workers.run_tasks(_fresh_text_call, keys, init=_init, procs=16, timeout=120, fork_per_task=True)
+    fresh = dict(zip(keys, fresh_raw))
+    items, meta = [], []
+    for origin, x in texts:
+        firing = [r for r in rules if isinstance(fresh.get((r, x)), tuple) and fresh[(r, x)] != ("ok", x)]
+        calls = list(ENTRY_CALLS)
+        for r in firing:
+            calls += [r, r]
+        calls.append("format_code")
+        items.append((x, calls))
+        meta.append((origin, x, calls))
+    results = workers.run_tasks(_text_history, items, init=_init, procs=16, timeout=600, fork_per_task=True)
+    n_calls = 0
+    for (origin, x, calls), r in zip(meta, results):
+        if not isinstance(r, dict):
+            continue
+        if r["unfaithful"]:
+            step, name, src = r["unfaithful"]
+            rep.violation(f"a tree cached by core.parse no longer matches its text after call {step} ({name}) of the history {calls[:step]} on {origin}",
+                          {"input_id": origin, "source": x, "history": calls[:step], "text_of_tree": src})
+            continue
+        for step, (name, got) in enumerate(zip(calls, r["results"]), start=1):
+            n_calls += 1
+            want = fresh.get((name, x))
+            if not isinstance(want, tuple) or tuple(got) == tuple(want):
+                continue
+            rep.violation(f"the result of {name} on {origin} depends on the calls made before it in the same process: {calls[:step - 1]}",
+                          {"input_id": origin, "source": x, "history": calls[:step], "result_in_history": list(got), "result_fresh": list(want)})
+            break
+    return len(items), n_calls
 
 
 def design_runs(rep: Report):
@@ -296,9 +393,9 @@ def main(argv=None) -> int:
     hists = hists + extra
     # fresh results
     keys = sorted({(names[h[0] - 1], h[1], fsv) for hist in hists for h in hist if h[0] != "fs" for fsv in (1, 2)})
-    fresh_raw = workers.run_tasks(_fresh, keys, init=_init, procs=16, timeout=300)
+    fresh_raw = workers.run_tasks(_fresh, keys, init=_init, procs=16, timeout=300, fork_per_task=True)
     fresh = dict(zip(keys, fresh_raw))
-    results = workers.run_tasks(_replay, [(h, names) for h in hists], init=_init, procs=16, timeout=600)
+    results = workers.run_tasks(_replay, [(h, names) for h in hists], init=_init, procs=16, timeout=600, fork_per_task=True)
     known = {e["id"] for e in rep.known_entries()}
     nontrivial = 0
     for hist, r in zip(hists, results):
@@ -325,14 +422,18 @@ def main(argv=None) -> int:
             rep.known("KF-C05-1", {"history": pretty})
             continue
         rep.violation(f"the result of {r['final_call'][0]} on text{r['final_call'][1]} depends on the calls made before it: history {pretty}", case)
-    rep.coverage["evaluations"] = len(hists)
-    rep.coverage["distinct_nontrivial"] = nontrivial
-    rep.coverage["traces_validated_against_impl"] = len(hists)
+    n_texts, n_calls = text_histories(rep, mods, t, rng)
+    rep.coverage["text_histories"] = {"texts": n_texts, "calls_compared_with_a_pristine_process": n_calls}
+    rep.coverage["evaluations"] = len(hists) + n_calls
+    rep.coverage["distinct_nontrivial"] = nontrivial + n_texts
+    rep.coverage["traces_validated_against_impl"] = len(hists) + n_texts
     rep.coverage["rule"] = ("call histories = the states of Cache.tla with MaxCalls calls over the alphabet of real calls (every rule that fires on one "
                             "of three rich texts, format_code in two option vectors, pattern sub / findall, a cache flood) x 3 texts, with file system "
                             "changes, plus sampled histories of length 3-4; non-trivial = the history repeats a call or changes the file system")
     rep.sample({"history": [["fs", h[1]] if h[0] == "fs" else [names[h[0] - 1], f"text{h[1]}"] for h in hists[len(hists) // 2]]})
-    rep.assumptions += ["a fresh process is emulated by clearing every lru_cache of pyrefact before a history / a reference call"]
+    rep.coverage["rule"] += ("; plus, for the first examples of every example script of the repository, the history fc_len72(x) fc(x) fc_safe(x) fc(x) "
+                             "fix_line_lengths_60(x) then every firing rule twice, then fc(x), each call compared with the same call in a pristine process")
+    rep.assumptions += ["a fresh process = a child forked from a worker that imported pyrefact but never called it (one fork per history / reference call)"]
     return rep.finish()
 
 
